@@ -1120,7 +1120,7 @@ Proof.
   split; [assumption|]. unfold withdrawn. fields.
   replace (funds st - (funds st - wamount st e req)) with (wamount st e req) by lia.
   destruct (beneficiary st =? owner st) eqn:Eb; zb; fields; repeat split; auto; try lia;
-    try (intros; contradiction).
-  - intros _. destruct Hav; [contradiction|assumption].
-  - intros _. apply Hb3. assumption.
+    try (intros; contradiction);
+    try (intros _; destruct Hav; [contradiction|assumption]);
+    try (intros _; apply Hb3; assumption).
 Qed.
